@@ -1,10 +1,9 @@
-//go:build verif
+//go:build verif && !verif_fallback
 
 package goat
 
 import (
 	"context"
-	"reflect"
 	"time"
 )
 
@@ -85,37 +84,9 @@ func VerifDemuxConns(obj any) int {
 // VerifParseGrpcTimeout exposes the timeout parser (C08 cross-check only).
 func VerifParseGrpcTimeout(s string) (time.Duration, bool) { return parseGrpcTimeout(s) }
 
-// VerifContainerTotal: the number of elements in every map, slice and channel that is a
-// field of the struct obj points to (nested structs included, pointers not followed).
-// Names no field: whatever a connection object remembers is counted. Call at a
-// quiescent point only.
-func VerifContainerTotal(obj any) int {
-	v := reflect.ValueOf(obj)
-	for v.Kind() == reflect.Pointer || v.Kind() == reflect.Interface {
-		if v.IsNil() {
-			return 0
-		}
-		v = v.Elem()
-	}
-	return containerTotal(v, 0)
-}
 
-func containerTotal(v reflect.Value, depth int) int {
-	if depth > 4 {
-		return 0
-	}
-	switch v.Kind() {
-	case reflect.Map, reflect.Slice, reflect.Chan:
-		return v.Len()
-	case reflect.Struct:
-		n := 0
-		for i := 0; i < v.NumField(); i++ {
-			n += containerTotal(v.Field(i), depth+1)
-		}
-		return n
-	}
-	return 0
-}
+// VerifFallback: false when these accessors (which name fields of the library's types) are compiled in.
+const VerifFallback = false
 
 // VerifClientContainerTotal: the same for a client connection's multiplexer.
 func VerifClientContainerTotal(cc *ClientConn) int { return VerifContainerTotal(cc.mp) }
